@@ -238,11 +238,13 @@ fn lin_ne<Var: IntegerVariable + 'static>(
 verif_harness! {
     #[kani::unwind(4)]
     fn lin_ne_ids_2() {
+        // (unregistered: one initial hole + a symbolic removal + the propagator's own removal
+        // need three holes per variable, the store has two)
         let terms = Terms::plain(2);
         domains(2, 1);
         let rhs: i32 = kani::any();
         monitor::pick_points(2);
-        let changes = [Change::any(2), Change::any(2)];
+        let changes = [Change::any(2)];
         lin_ne(terms, terms.ids(), rhs, &changes, false);
     }
 }
